@@ -29,6 +29,8 @@ def write_case(rng, meta, pvp, raw, support, target, tmpdir, plan):
         os.remove(path)
     fo = path if target == 'path' else (io.BytesIO() if target == 'bytesio' else open(path, 'w+b'))
     w = CPHDWriter1(fo, meta.copy(), check_existence=False)
+    if plan.get('permute_pvp_fields'):
+        pvp = cphdgen.permute_pvp_fields(rng, pvp)
     amp = {k: (v['AmpSF'] if 'AmpSF' in v.dtype.names else None) for k, v in pvp.items()}
     if plan['mode'] == 'file':
         if plan['formatted']:
@@ -95,6 +97,7 @@ def run(tier):
                     'order': rng.sample(['pvp', 'support', 'signal'], 3)}
             if amp and plan['formatted'] and plan['mode'] == 'pieces' and plan['order'].index('pvp') > plan['order'].index('signal'):
                 plan['order'] = ['pvp'] + [x for x in plan['order'] if x != 'pvp']   # AmpSF must be known before formatted writes (documented)
+            plan['permute_pvp_fields'] = rng.random() < 0.3
             case = {'fmt': fmt, 'sizes': sizes, 'amp_sf': amp, 'support': sup, 'text': text, 'target': target, 'plan': plan, 'template': template}
             seen.add((fmt, min(nch, 3), amp, min(nsup, 2), text is not None and not text.isascii(), target, plan['mode'], plan['formatted']))
             try:
